@@ -25,7 +25,8 @@ using namespace verif;
 namespace {
 struct CountSink {
 	size_t n = 0; uint32_t h = 0;
-	void append(char c) { n++; h = h * 31 + (unsigned char)c; if(n > (size_t(1) << 16)) throw Discard{"output longer than 64 KiB"}; }
+	// (leaves without an exception when called below guarded(): the library may declare its formatting primitives noexcept)
+	void append(char c) { n++; h = h * 31 + (unsigned char)c; if(n > (size_t(1) << 16)) { if(in_guarded()) leave_guarded(); throw Discard{"output longer than 64 KiB"}; } }
 	void append(const char *s) { while(*s) append(*s++); }
 	void append(const char *s, size_t k) { for(size_t i = 0; i < k; i++) append(s[i]); }
 };
@@ -105,10 +106,10 @@ void run_printf(Ctx &c, std::string in, unsigned variant) {
 	vs.arg_list = arg_list;
 	CountSink sink;
 	const char *f = exact(c, in, true);
-	try {
+	if(int how_ = guarded([&] {
 		auto r = frg::printf_format(Agent{&sink, &vs}, f, &vs);
 		(void)(bool)r;
-	} catch(Panic &) { panicked = true; }
+	}); how_ == 1) panicked = true; else if(how_ == 2) throw Discard{"output longer than 64 KiB"};
 	bool meta = in.find('%') != std::string::npos;
 	c.nontrivial = meta && in.size() >= 2;
 	c.tag("parser-printf"); if(dollar) c.tag("printf-dollar"); if(in.find('*') != std::string::npos) c.tag("printf-star");
@@ -118,11 +119,11 @@ void run_fmt(Ctx &c, const std::string &in, unsigned variant) {
 	c.op("fmt \"%s\" (variant %u)", show(in).c_str(), variant);
 	const char *f = exact(c, in, false);
 	CountSink sink;
-	try {
+	if(int how_ = guarded([&] {
 		if(variant == 0) frg::format(frg::fmt(frg::string_view(f, in.size()), 42, 7u, -5L, 123456789ull, 'q', "str", frg::string_view("view", 4)), sink);
 		else if(variant == 1) frg::format(frg::fmt(frg::string_view(f, in.size())), sink);
 		else frg::format(frg::fmt(frg::string_view(f, in.size()), -1), sink);
-	} catch(Panic &) { panicked = true; }
+	}); how_ == 1) panicked = true; else if(how_ == 2) throw Discard{"output longer than 64 KiB"};
 	c.nontrivial = in.find('{') != std::string::npos && in.size() >= 2;
 	c.tag("parser-fmt");
 }
@@ -180,7 +181,7 @@ void run_cmdline(Ctx &c, const std::string &in, unsigned variant) {
 	const char *buf = exact(c, in, false);
 	Targets *tg = c.make<Targets>();
 	frg::string_view line(buf, in.size());
-	try {
+	if(int how_ = guarded([&] {
 		if(variant == 0) {
 			frg::array args = { frg::option{"a", frg::store_true(tg->b1)}, frg::option{"1", frg::store_true(tg->b2)}, frg::option{"a", frg::as_string_view(tg->sv1)},
 				frg::option{"1", frg::as_number(tg->i)}, frg::option{"aa", frg::as_number(tg->u)}, frg::option{"a1", frg::as_number(tg->q)}, frg::option{"", frg::as_string_view(tg->sv2)} };
@@ -208,7 +209,7 @@ void run_cmdline(Ctx &c, const std::string &in, unsigned variant) {
 			frg::array args = { frg::option{"n", frg::as_number(tg->i)}, frg::option{"n", frg::as_number(tg->q)}, frg::option{"", frg::store_false(tg->b1)} };
 			frg::parse_arguments(line, args);
 		}
-	} catch(Panic &) { panicked = true; }
+	}); how_ == 1) panicked = true; else if(how_ == 2) throw Discard{"output longer than 64 KiB"};
 	VCHECK(c, "C20", tg->ok(), "parse_arguments wrote outside the option targets (canary damaged)");
 	for(auto *sv : {&tg->sv1, &tg->sv2}) {
 		if(sv->size() == 0 && (sv->data() == nullptr)) continue;
@@ -224,7 +225,7 @@ void run_to_number(Ctx &c, const std::string &in, unsigned variant) {
 	c.op("to_number \"%s\" (type %u)", show(in).c_str(), variant);
 	const char *buf = exact(c, in, false);
 	frg::string_view v(buf, in.size());
-	try {
+	if(int how_ = guarded([&] {
 		switch(variant) {
 		case 0: { auto r = v.to_number<int>(); (void)(bool)r; break; }
 		case 1: { auto r = v.to_number<unsigned>(); (void)(bool)r; break; }
@@ -249,7 +250,7 @@ void run_to_number(Ctx &c, const std::string &in, unsigned variant) {
 			if(digits && in.size() <= 9) { unsigned long long ev = strtoull(in.c_str(), nullptr, 10); VCHECK(c, "C20", r2 && *r2 == ev && r6 && *r6 == ev, "to_number on a wide view of \"%s\" differs from the narrow result", in.c_str()); }
 			c.tag("to_number-wide-views");
 		}
-	} catch(Panic &) { panicked = true; }
+	}); how_ == 1) panicked = true; else if(how_ == 2) throw Discard{"output longer than 64 KiB"};
 	bool digits = !in.empty(); for(unsigned char ch : in) if(ch < '0' || ch > '9') digits = false;
 	c.nontrivial = in.size() >= 2;
 	c.tag("parser-to_number"); if(digits && in.size() >= 10) c.tag("to_number-long-digits");
